@@ -127,6 +127,8 @@ const (
 // Data chunk errors.
 var (
 	ErrChunkPayloadSmall = errors.New("packet is smaller than the header size")
+	// ErrChunkPayloadNoUserData is returned when a DATA chunk carries no user data.
+	ErrChunkPayloadNoUserData = errors.New("DATA chunk has no user data")
 )
 
 func (p PayloadProtocolIdentifier) String() string {
@@ -257,6 +259,13 @@ func (p *chunkPayloadData) marshal() ([]byte, error) { //nolint:cyclop
 }
 
 func (p *chunkPayloadData) check() (abort bool, err error) {
+	// RFC 9260 Sec 6.2: a DATA chunk with no user data is answered with an ABORT.
+	// It would otherwise be queued without ever being counted against the
+	// receive window, which tracks user bytes.
+	if len(p.userData) == 0 {
+		return true, ErrChunkPayloadNoUserData
+	}
+
 	return false, nil
 }
 
